@@ -48,9 +48,9 @@ KEEP_PER_SIGNATURE = 3
 CFG = {
     "quick": [("PointsQuick.cfg", 0, None), ("Curve2Quick.cfg", 2, None), ("CurveQuick.cfg", 2, None),
               ("SurfaceQuick.cfg", 3, None)],
-    "thorough": [("PointsThorough.cfg", 0, None), ("Curve2Quick.cfg", 2, None), ("CurveThorough.cfg", 2, 12000),
-                 ("Curve4Thorough.cfg", 2, None), ("CurveIx3Thorough.cfg", 2, None),
-                 ("CurveOrientThorough.cfg", 2, None), ("SurfaceThorough.cfg", 3, None),
+    "thorough": [("PointsThorough.cfg", 0, None), ("Curve2Quick.cfg", 2, None), ("CurveThorough.cfg", 2, 8000),
+                 ("Curve4Thorough.cfg", 2, 10000), ("CurveIx3Thorough.cfg", 2, None),
+                 ("CurveOrientThorough.cfg", 2, None), ("SurfaceThorough.cfg", 3, 10000),
                  ("SurfaceOrientThorough.cfg", 3, None)],
 }
 NEGATIVE = {
